@@ -2,7 +2,7 @@
 # usage: verify_seeded.sh <prop> <mN> [extra go test flags]  -- confirms a seeded change in a scratch worktree of /repo's HEAD
 prop=$1; m=$2; shift 2; flags="$@"
 export GOFLAGS=-mod=mod GOPROXY=off GOSUMDB=off GOTOOLCHAIN=local
-src=/tmp/wt/$prop/mutants
+src=${SRCBASE:-/tmp/wt}/$prop/mutants
 wt=/tmp/wtv-$prop-$m
 git -C /repo worktree remove --force $wt >/dev/null 2>&1; rm -rf $wt
 git -C /repo worktree add -f $wt HEAD >/dev/null 2>&1 || { echo "worktree failed"; exit 2; }
